@@ -12,14 +12,16 @@ Inductive otype :=
 | OT (rel:bool) (a:oattrs) (fs:list (name * (name * bool * oattrs))) (pk:list name)
 | OE (a:oattrs) (items:list (name * Z))
 | OAl (a:oattrs) (ty:name)
-| OU (a:oattrs) (alts:list name).
+| OU (a:oattrs) (alts:list name)
+| OV (a:oattrs) (sg:name).
 (* pubsub, rest, source, attrs, params, query params, url params, statements (nested scopes as SOpen .. SClose) *)
 Record oep := OEP { oe_pubsub : bool; oe_rest : bool; oe_source : option appname; oe_attrs : oattrs;
                     oe_params : list name; oe_query : list name; oe_url : list name; oe_stmts : list stmt }.
 Record oapp := OA { o_name : appname; o_long : option name; o_attrs : oattrs; o_mixins : list name;
                     o_types : list (name * otype); o_eps : list (epkey * oep) }.
 
-Definition c04_case := (name * list filedesc * option (list oapp))%type.
+(* root, files, the files among them handed to the parser as compiled modules, what the parser built *)
+Definition c04_case := (name * list filedesc * list name * option (list oapp))%type.
 
 Definition attrs_of (l:oattrs) : attrs := list_to_map l.
 
@@ -30,6 +32,7 @@ Definition type_of (t:otype) : typeent :=
   | OE a items => TEnum (attrs_of a) (list_to_map items)
   | OAl a ty => TAlias (attrs_of a) ty
   | OU a alts => TUnion (attrs_of a) alts
+  | OV a sg => TView (attrs_of a) sg
   end.
 
 Definition ep_of (e:oep) : endpoint :=
@@ -50,9 +53,9 @@ Definition state_of (obs:list oapp) : state :=
 
 Definition c04_ok (mode:pkmode) (c:c04_case) : bool :=
   match c with
-  | (root, files, Some obs) =>
-      let s := denote_files mode files root in
+  | (root, files, pbs, Some obs) =>
+      let s := denote_files_pb mode files pbs root in
       let o := state_of obs in
       bool_decide (fst s = fst o) && bool_decide (snd s = snd o)
-  | (_, _, None) => false     (* every generated layout is grammatical: a compile error is a mismatch *)
+  | (_, _, _, None) => false     (* every generated layout is grammatical: a compile error is a mismatch *)
   end.
